@@ -130,8 +130,8 @@ def guarded(run_case):
         try:
             return run_case(ctx, case)
         except PoolError as e:
-            if e.kind == "start":
-                raise RuntimeError("MPI pool could not be started: %s" % e.detail)     # harness trouble, never a verdict
+            if e.kind in ("start", "harness"):
+                raise RuntimeError("harness problem (%s): %s" % (e.kind, e.detail))     # harness trouble, never a verdict
             tail = e.stderr_tail[-3000:]
             sig = {"kind": e.kind}
             if e.kind == "crash":
